@@ -191,3 +191,41 @@ package oidc
 //@ func oidc.TokenType.IsSupported
 //@   modifies nothing
 //@   ensures listed: result <==> contains(AllTokenTypes, t)
+
+// ---- C06: claim constructors ----
+// fromTime: whole seconds since the epoch; the zero time maps to 0.
+//@ spec func fromTime(t time) int = ite(t == ZEROTIME, 0, tosec(t))
+//@ func oidc.FromTime
+//@   modifies nothing
+//@   ensures seconds: result == fromTime(tt)
+
+//@ loop oidc.AppendClientIDToAudience#1
+//@   invariant none-yet: forall k int :: 0 <= k && k <= rangeindex ==> audience[k] != clientID
+//@ func oidc.AppendClientIDToAudience
+//@   ensures has-client: contains(result, clientID)
+//@   ensures keeps-audience: len(result) >= len(audience) && forall k int :: 0 <= k && k < len(audience) ==> result[k] == audience[k]
+
+//@ func oidc.NewIDTokenClaims
+//@   modifies wallclock
+//@   ensures fresh-claims: result != nil && fresh(result)
+//@   ensures identity: result.Issuer == issuer && result.Subject == subject && result.AuthorizedParty == clientID && result.ClientID == clientID
+//@   ensures audience-has-client: contains(result.Audience, clientID)
+//@   ensures request-data: result.Nonce == nonce && result.AuthenticationContextClassReference == acr && result.AuthenticationMethodsReferences == amr
+//@   ensures times: result.Expiration == fromTime(expiration) && result.IssuedAt == fromTime(now(1) - skew) && result.AuthTime == fromTime(authTime - skew)
+//@   ensures no-hashes-yet: result.AccessTokenHash == "" && result.CodeHash == ""
+
+// (observation: with an empty audience of spare capacity the append writes the client id into the
+// caller's backing array; callers pass request getters' results, so this is not claimed as a finding)
+//@ func oidc.NewAccessTokenClaims
+//@   modifies wallclock
+//@   ensures fresh-claims: result != nil && fresh(result)
+//@   ensures identity: result.Issuer == issuer && result.Subject == subject && result.ClientID == clientID && result.JWTID == jwtid
+//@   ensures audience: (len(audience) > 0 ==> result.Audience == audience) && (len(audience) == 0 ==> contains(result.Audience, clientID))
+//@   ensures times: result.Expiration == fromTime(expiration) && result.IssuedAt == fromTime(now(1) - skew) && result.NotBefore == result.IssuedAt
+
+// SetUserInfo copies the user claims (and the userinfo subject) into the ID token claims and
+// leaves the registered token claims other than sub untouched.
+//@ func oidc.IDTokenClaims.SetUserInfo
+//@   requires valid(t) && valid(i)
+//@   modifies t.Subject, t.UserInfoProfile, t.UserInfoEmail, t.UserInfoPhone, t.Address, t.Claims
+//@   ensures subject-from-userinfo: t.Subject == i.Subject
